@@ -9,9 +9,10 @@
      bools, dicts/objects and lists; attribute access on None etc. = exception = `None` here);
    * `walk`: the path `slide` follows through a compiled flat flow under a valuation of its
      guards (proved to be a `path` of Pipe/FlowCheck_proofs.v in OptGuards_proofs.v).
-   Definitions only.  Types of the compiled flows come from Pipe/FlowCheck.v (C01 builder). *)
+   Definitions only.  Types of the compiled flows come from Pipe/FlowCheck.v (C01 builder).  The values of a
+   turn's context ($generation_options, $config) are in Pipe/OptGuardsEnv.v (C16 only). *)
 From Coq Require Import List String Bool ZArith.
-From NG Require Import Pipe.FlowCheck Pipe.Options.
+From NG Require Import Pipe.FlowCheck.
 Import ListNotations.
 Open Scope string_scope.
 Open Scope list_scope.
@@ -130,30 +131,6 @@ Fixpoint lookup_guard (s : string) (t : list (string * gexpr)) : option gexpr :=
 (* valuation of guard strings induced by a table and an environment *)
 Definition valuation (t : list (string * gexpr)) (rho : env) (s : string) : option bool :=
   match lookup_guard s t with Some e => holds rho e | None => None end.
-
-(* ---------- the context of a turn, as values ---------- *)
-Definition rails_val (o : ropts) : gval :=
-  VRec [("input", VBool (o_input o)); ("output", VBool (o_output o));
-        ("retrieval", VBool (o_retrieval o)); ("dialog", VBool (o_dialog o))].
-
-(* options.dict(): a non-empty dict with the `rails` entry (other entries are not read by the guards) *)
-Definition gopts_val (g : option ropts) : gval :=
-  match g with
-  | None => VNone
-  | Some o => VRec [("rails", rails_val o); ("log", VRec [("activated_rails", VBool false)])]
-  end.
-
-Definition config_val (c : cfg) : gval :=
-  VRec [("rails", VRec [("input", VRec [("flows", VList (List.length (c_in c)))]);
-                        ("output", VRec [("flows", VList (List.length (c_out c)))]);
-                        ("retrieval", VRec [("flows", VList (List.length (c_ret c)))])])].
-
-Definition turn_env (c : cfg) (g : option ropts) (skip : option bool) : env :=
-  fun v =>
-    if String.eqb v "generation_options" then gopts_val g
-    else if String.eqb v "config" then config_val c
-    else if String.eqb v "skip_output_rails" then match skip with Some b => VBool b | None => VNone end
-    else VNone.
 
 (* ---------- following a compiled flow under a valuation ---------- *)
 (* steps (index, edge taken) until the flow ends; None = a guard raises / a loop / out of fuel *)
